@@ -307,7 +307,7 @@ class C17(Prop):
 
     def cases(self, ctx):
         rng = ctx.rng
-        n = 500 if ctx.tier == "quick" else 8000
+        n = 1500 if ctx.tier == "quick" else 12000
         out = []
         for i in range(n):
             ops = []
@@ -316,7 +316,7 @@ class C17(Prop):
                 r = rng.random()
                 if r < 0.08: L = rng.randrange(0, 8)
                 elif r < 0.6: L = rng.randrange(3, 120)
-                elif r < 0.97 or ctx.tier == "quick" and i > 8: L = rng.randrange(120, 1500)
+                elif r < 0.97 or ctx.tier == "quick" and i % 100 != 0: L = rng.randrange(120, 1500)
                 else: L = rng.randrange(8000, 20001)
                 dna = self.rand_dna(rng, L, tid)
                 init, using = rng.choice([("any", 0), ("any", 0), ("table", 1), ("aug", 2), ("table", 0), ("aug", 0), ("any", 1)])
@@ -387,6 +387,12 @@ class C17(Prop):
                                 return Failure("monitor", "table %d init=%s codon %s%s%s: translation %d initiator %d, specification %d %d" % (
                                     tid, init, NUC[a], NUC[b], NUC[c], tr[k], inn[k], wa, wi))
                             k += 1
+            elif name == "write":
+                got = py_read(unhex(l.split()[1])) if l.startswith("ok ") else None
+                if got is None or got[0] != basic or got[1] != ini:
+                    return Failure("monitor", "table %d (%s) written in NCBI form is not the pinned NCBI table" % (tid, init))
+                if int(d.get("comment", 0)) and not unhex(l.split()[1]).startswith(b"# %d " % tid):
+                    return Failure("monitor", "table %d: comment line missing" % tid)
             elif name == "readwrite":
                 if not l.startswith("ok same id=-1 desc=-"):
                     return Failure("monitor", "table %d (%s) written in NCBI form and read back: %s" % (tid, init, l[:60]))
